@@ -411,6 +411,11 @@ func (h *Handler) HandleDeleteFile(ctx *Context, path string) error {
 // remove removes a directory (dir is set) or anything but a directory (dir is not set):
 // Remove of underlying filesystem takes both for both requests.
 func (h *Handler) remove(path string, dir bool) error {
+	// root itself is an entry of its parent directory, which is out of reach for clients
+	if filepath.Clean(path) == string(filepath.Separator) {
+		return &fs.PathError{Op: "remove", Path: path, Err: syscall.EBUSY}
+	}
+
 	fsys := h.Fs
 	if u, ok := fsys.(interface{ Unwrap() afero.Fs }); ok {
 		fsys = u.Unwrap()
